@@ -41,7 +41,7 @@ def fam0(support, p=0.5):
 
 def fam1(support, a=0.5, b=1.0):
     """linear weights a*k + b"""
-    if a < 0.0 or b <= 0.0:
+    if not (0.0 <= a <= 100.0 and 0.0 < b <= 100.0):   # also rejects NaN and +-inf
         raise ValueError("a, b out of range")
     return a * np.asarray(support, dtype=float) + b
 
@@ -99,3 +99,57 @@ def table_from_patients(patients: list[dict], mod_names, lnl_names, sides=("ipsi
         rows.append(row)
     df = pd.DataFrame(rows, columns=pd.MultiIndex.from_tuples(cols), dtype=object)
     return df
+
+
+def _uni_kwargs(case):
+    kw = {}
+    if "max_time" in case:
+        kw["max_time"] = case["max_time"]
+    kw["allowed_states"] = [0, 1, 2] if case["graph"]["base"] == 3 else [0, 1]
+    return kw
+
+
+def _common(m, case):
+    for name, spec, sens, kind in case.get("mods", []):
+        m.set_modality(name, spec, sens, kind)
+    for t, d in case.get("dists", {}).items():
+        apply_dist(m, t, d)
+
+
+def build_bilateral(case: dict):
+    """case: graph, sym {tumor_spread, lnl_spread}, params (composite keyword names) or
+    ipsi_params/contra_params (leaf keyword names), mods, dists, max_time"""
+    m = models.Bilateral(gen.graph_dict(case["graph"]), is_symmetric=dict(case.get("sym", {})),
+                         uni_kwargs=_uni_kwargs(case))
+    if case.get("params"):
+        m.set_params(**case["params"])
+    if case.get("ipsi_params"):
+        m.ipsi.set_params(**case["ipsi_params"])
+    if case.get("contra_params"):
+        m.contra.set_params(**case["contra_params"])
+    _common(m, case)
+    return m
+
+
+def build_midline(case: dict):
+    """case: graph, flags {use_mixing, use_central, use_midext_evo, marginalize_unknown, lnl_sym},
+    params (composite keyword names), mods, dists, max_time"""
+    fl = case.get("flags", {})
+    m = models.Midline(gen.graph_dict(case["graph"]),
+                       is_symmetric={"lnl_spread": fl.get("lnl_sym", True)},
+                       use_mixing=fl.get("use_mixing", True), use_central=fl.get("use_central", False),
+                       use_midext_evo=fl.get("use_midext_evo", True),
+                       marginalize_unknown=fl.get("marginalize_unknown", True),
+                       uni_kwargs=_uni_kwargs(case))
+    if case.get("params"):
+        m.set_params(**case["params"])
+    _common(m, case)
+    return m
+
+
+def leaf_case(case: dict, uni_model) -> dict:
+    """The unilateral case description of a leaf: same graph/mods/dists, the leaf's own edge parameters."""
+    spread = dict(uni_model.get_spread_params(as_dict=True))
+    c = {"graph": case["graph"], "params": {k: float(v) for k, v in spread.items()},
+         "mods": case.get("mods", []), "dists": case.get("dists", {}), "max_time": case.get("max_time", 10)}
+    return c
